@@ -9,6 +9,10 @@
 // The STIR defects found with this harness (F1 centre weight in the Hessian, F2 only_2D ignored by the explicit
 // constructors, F3/F4 PLS gradient at border voxels / with a non-uniform kappa) are repaired; their input classes are part
 // of the normal search and the minimal cases are regression inputs under replays/C09/fixed_*.json.
+//
+// Two of five generated cases are OBJECT HISTORIES on one prior object (order of first use of the six calls, second set_up for
+// another geometry, setters / parsing between uses; see the section OBJECT HISTORIES below).  One known finding of that search
+// (F6: computed default weights are never recomputed) is kept out by construction, see there.
 #include "stir_gen.h"
 #include "c09_ref.h"
 #include "stir/recon_buildblock/QuadraticPrior.h"
@@ -1272,6 +1276,720 @@ check_pls(const Cfg& k)
   return Result::pass();
 }
 
+// =======================================================================================================================
+// OBJECT HISTORIES (cases that carry a "hist" array, 2 of 5 generated cases; the others are checked as above).
+//
+// ONE prior object is constructed, set up and then used, changed and used again.  A case is
+//    base configuration (as above)  +  "use0": [first, n, seed]  +  "hist": [[op, a, b, first, n, seed], ...]
+// After the construction and after every change a USE BLOCK runs: n of the calls compute_value, compute_gradient,
+// compute_Hessian (1-3 voxels), accumulate_Hessian_times_input, parabolic_surrogate_curvature,
+// add_multiplication_with_approximate_Hessian in a permuted order that STARTS with call `first` (so the first weight-using call
+// after construction / set_up is any of them), each on a fresh random image.  EVERY result is compared with the
+// double-precision reference (c09_ref.h) evaluated for the CURRENT settings of the model state below, i.e. with what a freshly
+// constructed object with these settings has to return (same tolerances as the classic half).  The only quantity without a
+// documented formula, QuadraticPrior::add_multiplication_with_approximate_Hessian, is compared with a freshly constructed twin
+// object that has evaluated compute_value first.  All arguments are interpreted modulo the current state, so every
+// sub-sequence of "hist" is a valid history (shrinking).
+//
+// Changes (op):  0 set_up again (same geometry, new target object)    1 set_up for ANOTHER image geometry (sizes, first indices,
+// voxel sizes, or back to the first geometry; the kappa / anatomical images are replaced first: check() error()s "kappa image
+// does not have the same index range" otherwise)    2 set_weights (other shapes, back to the first ones; PLS:
+// set_anatomical_image_sptr)
+// 3 set_kappa_sptr (null / positive / with zeros / constant)    4 set_penalisation_factor    5 parse() on the live object
+// (only 2D, penalisation factor, gamma/epsilon/scalar, weights - ParsingObject::parse() does not call set_defaults(): keys that
+// are absent keep their values; the only interface to only_2D of the three pairwise priors; PLS: set_only_2D or parsing)
+// 6 set_gamma/set_epsilon, set_scalar, set_eta/set_alpha.
+// Preconditions: RelativeDifferencePrior::set_weights / set_kappa_sptr reset _already_set_up (check() then error()s "The prior
+// should already be set-up"); PLSPrior::set_up precomputes the anatomical gradients and their norm (eta, only_2D); the other
+// setters do not say.  The history therefore calls set_up(target) after EVERY change, except after set_penalisation_factor
+// ("Currently we allow the penalisation factor to be set after calling set_up()", GeneralisedPrior.inl) where it is optional.
+//
+// KNOWN FINDING kept out by construction (back in with VERIF_NO_EXCLUDE=1; probe known/C09/stale_default_weights_second_set_up.json):
+// the default weights ("x-voxel_size divided by the Euclidean distance", 3x3x3 or 1x3x3 for only_2D) are computed lazily by the
+// first weight-using call with a non-zero penalisation factor ("if (weights.get_length() == 0) compute_weights(...)") and never
+// again: after a set_up for an image with other voxel-size ratios, or after "only 2D" was changed by parsing, the object keeps
+// the weights of the FIRST geometry and every quantity differs from a fresh object.  Avoided: the new geometry then gets the
+// old voxel sizes times 1/2, 1 or 2 (same weights), and the only_2D value is not changed; counted under excluded_known.
+const char* const SIG_STALE_W = "C09:history:default-weights-computed-by-first-use:voxel-size-ratio-or-only_2D-changed-later";
+
+// true while the finding is not repaired in /repo.  When the repair (work/fixes/C09_ext/01_default_prior_weights_recomputed.diff) is
+// committed: set to false, move known/C09/stale_default_weights_second_set_up.json to replays/C09/fixed_F6_*.json
+const bool EXCLUDE_STALE_DEFAULT_WEIGHTS = true;
+
+bool
+no_exclude()
+{
+  static const bool v = !EXCLUDE_STALE_DEFAULT_WEIGHTS || std::getenv("VERIF_NO_EXCLUDE") != nullptr;
+  return v;
+}
+
+enum HCall
+{
+  HC_VALUE = 0,
+  HC_GRAD,
+  HC_HROW,
+  HC_HTIMES,
+  HC_CURV,
+  HC_APPROX
+};
+const char* const hcall_name[] = { "compute_value", "compute_gradient", "compute_Hessian", "accumulate_Hessian_times_input", "parabolic_surrogate_curvature",
+                                   "add_multiplication_with_approximate_Hessian" };
+enum HOp
+{
+  HO_SETUP_SAME = 0,
+  HO_NEW_GRID,
+  HO_WEIGHTS,
+  HO_KAPPA,
+  HO_BETA,
+  HO_PARSE,
+  HO_PARAM,
+  HO_NUM
+};
+const char* const hop_name[] = { "set_up again", "set_up for another geometry", "set_weights / anatomical image", "set_kappa_sptr", "set_penalisation_factor",
+                                 "parse on the live object / only_2D", "parameter setter" };
+
+//! the settings a freshly constructed twin would be given (model of the live object)
+struct HState
+{
+  int kind = QUAD;
+  Grid g;
+  float beta = 1;
+  bool only_2D = false;
+  bool user = false; // user weights present (set_weights / "weights" key); they never go away again (no documented way back)
+  Weights user_w;
+  int kmode = 0;
+  Vec kap;
+  float gamma = 2, eps = 0.1f, scalar = 1;
+  double eta = 1, alpha = 1, iscale = 1, ascale = 1;
+  int amode = 0;
+  Vec anat;
+  shared_ptr<Vox> target;
+  // bookkeeping for the known finding: has the live object computed its default weights, and for which settings
+  bool mat = false;
+  Grid mat_g;
+  bool mat_2D = false;
+
+  Weights weights() const { return user ? user_w : default_weights(g, only_2D); }
+};
+
+bool
+same_weights(const Weights& a, const Weights& b)
+{
+  if (a.hz != b.hz || a.hy != b.hy || a.hx != b.hx)
+    return false;
+  for (std::size_t i = 0; i < a.w.size(); ++i)
+    if (std::fabs(a.w[i] - b.w[i]) > 1e-7 * (std::fabs(a.w[i]) + std::fabs(b.w[i])))
+      return false;
+  return true;
+}
+
+//! would the live object (unchanged tree) hold default weights of other settings than \a g / \a only_2D ?
+bool
+would_be_stale(const HState& st, const Grid& g, bool only_2D)
+{
+  return st.kind != PLS && st.mat && !st.user && !same_weights(default_weights(st.mat_g, st.mat_2D), default_weights(g, only_2D));
+}
+
+void
+count_excluded(const char* sig)
+{
+  stats().excluded_known++;
+  stats().count(std::string("excluded:") + sig);
+}
+
+const std::vector<float>&
+beta_list()
+{
+  static const std::vector<float> v = { 1.f, 0.f, 0.5f, 2.5f, 100.f, 0.01f, 7.3f };
+  return v;
+}
+
+Vec
+h_kappa(int kmode, uint64_t seed, double kconst, const Grid& g)
+{
+  Cfg t;
+  t.kmode = kmode;
+  t.kseed = seed;
+  t.kconst = kconst;
+  return make_kappa(t, g);
+}
+
+Vec
+h_anat(const HState& st, uint64_t seed, const Grid& g)
+{
+  SplitMix r(seed);
+  Vec v(std::size_t(g.N()));
+  for (auto& e : v)
+    e = double(float((st.amode == 1 ? 1. : r.real(0., 1.)) * st.ascale));
+  return v;
+}
+
+Weights
+h_user_weights(int hz, int hy, int hx, uint64_t seed)
+{
+  Cfg t;
+  t.hz = hz;
+  t.hy = hy;
+  t.hx = hx;
+  t.wseed = seed;
+  SplitMix r(seed ^ 0x77u);
+  t.wzero = int(r.range(0, 4));
+  t.wcentre = r.range(0, 3) == 0 ? r.real(0.1, 2.) : 0.;
+  return make_user_weights(t);
+}
+
+void
+live_set_weights(const Made& m, int kind, const Weights& w)
+{
+  if (kind == QUAD)
+    dynamic_cast<QuadraticPrior<float>&>(*m.p).set_weights(to_array(w));
+  else if (kind == RDP)
+    dynamic_cast<RelativeDifferencePrior<float>&>(*m.p).set_weights(to_array(w));
+  else if (kind == LOGCOSH)
+    dynamic_cast<LogcoshPrior<float>&>(*m.p).set_weights(to_array(w));
+}
+
+void
+live_set_kappa(const Made& m, int kind, const shared_ptr<Vox>& k)
+{
+  if (kind == QUAD)
+    dynamic_cast<QuadraticPrior<float>&>(*m.p).set_kappa_sptr(k);
+  else if (kind == RDP)
+    dynamic_cast<RelativeDifferencePrior<float>&>(*m.p).set_kappa_sptr(k);
+  else if (kind == LOGCOSH)
+    dynamic_cast<LogcoshPrior<float>&>(*m.p).set_kappa_sptr(k);
+  else
+    dynamic_cast<PLSPrior<float>&>(*m.p).set_kappa_sptr(k);
+}
+
+bool
+live_parse(const Made& m, int kind, const std::string& body)
+{
+  static const char* const names[] = { "Quadratic Prior", "Relative Difference Prior", "Logcosh Prior", "PLS Prior" };
+  const std::string name = names[kind & 3];
+  std::istringstream is(name + " Parameters:=\n" + body + "END " + name + " Parameters:=\n");
+  if (kind == QUAD)
+    return dynamic_cast<QuadraticPrior<float>&>(*m.p).parse(is);
+  if (kind == RDP)
+    return dynamic_cast<RelativeDifferencePrior<float>&>(*m.p).parse(is);
+  if (kind == LOGCOSH)
+    return dynamic_cast<LogcoshPrior<float>&>(*m.p).parse(is);
+  return dynamic_cast<PLSPrior<float>&>(*m.p).parse(is);
+}
+
+Grid
+h_new_grid(const HState& st, const Grid& base, int variant, uint64_t seed)
+{
+  if ((variant / 4) % 3 == 2)
+    return base; // back to the geometry of the construction
+
+  SplitMix r(seed ^ 0xA5A5A5u);
+  Grid g;
+  auto dim = [&](int m) { return r.range(0, 5) == 0 ? 1 : int(r.range(2, m)); };
+  g.nz = dim(5);
+  g.ny = dim(6);
+  g.nx = dim(6);
+  const bool usual = r.range(0, 1) == 1;
+  g.oz = usual ? 0 : int(r.range(-3, 3));
+  g.oy = usual ? -(g.ny / 2) : int(r.range(-6, 4));
+  g.ox = usual ? -(g.nx / 2) : int(r.range(-6, 4));
+  static const float sp[] = { 0.5f, 1.f, 1.5f, 2.f, 2.5f, 3.f, 4.f, 5.f, 1.171875f, 3.3125f };
+  const float a = sp[r.range(0, 9)], b = sp[r.range(0, 9)], c = sp[r.range(0, 9)];
+  const float f = r.range(0, 1) ? 0.5f : 2.f;
+  switch (variant & 3)
+    {
+    case 0: // only sizes / first indices change
+      g.vz = st.g.vz, g.vy = st.g.vy, g.vx = st.g.vx;
+      break;
+    case 1: // new anisotropic voxel sizes
+      g.vz = a, g.vy = b, g.vx = c;
+      break;
+    case 2: // new isotropic voxel sizes
+      g.vz = g.vy = g.vx = a;
+      break;
+    default: // all voxel sizes scaled by a common factor (the default weights are invariant)
+      g.vz = st.g.vz * f, g.vy = st.g.vy * f, g.vx = st.g.vx * f;
+    }
+  g.org_z = r.range(0, 1) ? 0.f : float(r.range(-20, 20));
+  g.org_x = r.range(0, 1) ? 0.f : float(r.range(-20, 20));
+  return g;
+}
+
+Spec
+h_spec(const HState& st, const Weights* user_w, int construct)
+{
+  Spec s;
+  s.kind = st.kind;
+  s.beta = st.beta;
+  s.only_2D = st.only_2D;
+  s.user_w = user_w;
+  s.construct = construct;
+  s.gamma = st.gamma;
+  s.eps = st.eps;
+  s.scalar = st.scalar;
+  s.eta = st.eta;
+  s.alpha = st.alpha;
+  s.kappa = st.kap.empty() ? shared_ptr<Vox>() : to_vox(st.g, st.kap);
+  s.anat = st.kind == PLS ? to_vox(st.g, st.anat) : shared_ptr<Vox>();
+  return s;
+}
+
+//! one use block; \a where describes the position in the history for the messages
+Result
+h_use(HState& st, const Made& m, long first, long n, uint64_t seed, const std::string& where)
+{
+  const Grid& g = st.g;
+  const int N = g.N();
+  const std::string kn = kind_name(st.kind);
+  Prior& P = *m.p;
+  SplitMix r(seed ^ 0x3C3C3Cu);
+  // applicable calls (RDP has no surrogate curvature; the approximate Hessian of RDP / Logcosh is "not implemented": no weights involved)
+  std::vector<int> calls;
+  switch (st.kind)
+    {
+    case QUAD:
+      calls = { HC_VALUE, HC_GRAD, HC_HROW, HC_HTIMES, HC_CURV, HC_APPROX };
+      break;
+    case RDP:
+      calls = { HC_VALUE, HC_GRAD, HC_HROW, HC_HTIMES };
+      break;
+    case LOGCOSH:
+      calls = { HC_VALUE, HC_GRAD, HC_HROW, HC_HTIMES, HC_CURV };
+      break;
+    default:
+      calls = { HC_VALUE, HC_GRAD };
+    }
+  const std::size_t nc = calls.size();
+  std::swap(calls[0], calls[std::size_t(((first % long(nc)) + long(nc)) % long(nc))]);
+  for (std::size_t i = nc - 1; i >= 2; --i)
+    std::swap(calls[i], calls[std::size_t(r.range(1, long(i)))]);
+  std::size_t ncalls = std::size_t(((n % long(nc)) + long(nc)) % long(nc));
+  if (ncalls == 0)
+    ncalls = nc;
+  calls.resize(ncalls);
+
+  // the image of this block
+  Vec x(static_cast<std::size_t>(N));
+  {
+    const bool coarse = r.range(0, 3) == 0;
+    for (auto& e : x)
+      e = double(float((coarse ? double(r.range(0, 4)) / 4. : r.real(0.05, 1.)) * st.iscale));
+  }
+  const shared_ptr<Vox> xim = to_vox(g, x);
+  const Vec v = make_direction(seed + 1, std::size_t(N), 1.);
+
+  if (st.kind == PLS)
+    {
+      PlsRef<double> ref;
+      ref.g = g;
+      ref.only_2D = st.only_2D;
+      ref.kap = st.kap;
+      ref.anat = st.anat;
+      ref.eta = st.eta;
+      ref.alpha = st.alpha;
+      ref.beta = double(st.beta);
+      for (int call : calls)
+        {
+          const std::string what = cat("history ", hcall_name[call], " PLS");
+          if (call == HC_VALUE)
+            {
+              double vmag = 0;
+              const double vref = ref.value(x, &vmag);
+              const std::string msg = cmp_scalar(what, P.compute_value(*xim), vref, vmag, TOL_PLS);
+              if (!msg.empty())
+                return Result::fail(cat(where, ": ", msg));
+            }
+          else
+            {
+              Vec gref, gmag;
+              ref.gradient(x, gref, &gmag);
+              for (int z = 0; z < g.nz; ++z) // float scale of the divergence, as in check_pls
+                for (int y = 0; y < g.ny; ++y)
+                  for (int xx = 0; xx < g.nx; ++xx)
+                    {
+                      const int rr = g.idx(z, y, xx);
+                      double ks = ref.kappa(rr);
+                      for (int d = 0; d < 3; ++d)
+                        if (ref.active(d) && ref.bwd(z, y, xx, d) >= 0)
+                          ks = std::max(ks, ref.kappa(ref.bwd(z, y, xx, d)));
+                      gmag[std::size_t(rr)] += 0.1 * double(st.beta) * ks;
+                    }
+              const std::string msg = cmp_vec(what, stir_gradient(P, g, *xim), gref, gmag, TOL_PLS, g);
+              if (!msg.empty())
+                return Result::fail(cat(where, ": ", msg));
+            }
+          stats().count("history: calls compared");
+        }
+      return Result::pass();
+    }
+
+  PairRef<double> ref;
+  ref.g = g;
+  ref.w = st.weights();
+  ref.kap = st.kap;
+  ref.pot.kind = st.kind;
+  ref.pot.gamma = double(st.gamma);
+  ref.pot.eps = double(st.eps);
+  ref.pot.s = double(st.scalar);
+  ref.beta = double(st.beta);
+
+  bool first_call = true;
+  for (int call : calls)
+    {
+      const std::string what = cat("history ", hcall_name[call], " ", kn);
+      const bool lazily_creates = st.beta != 0 && !st.user && !st.mat; // this call computes the default weights
+      if (lazily_creates)
+        stats().cls(cat("history: default weights computed by ", hcall_name[call], " ", kn));
+      std::string msg;
+      switch (call)
+        {
+        case HC_VALUE:
+          {
+            double vmag = 0, vfloor = 0;
+            const double vref = ref.value(x, &vmag, &vfloor);
+            msg = cmp_scalar(what, P.compute_value(*xim), vref, vmag + 3. * vfloor / TOL, TOL);
+            break;
+          }
+        case HC_GRAD:
+          {
+            Vec gref, gmag;
+            ref.gradient(x, gref, &gmag);
+            msg = cmp_vec(what, stir_gradient(P, g, *xim), gref, gmag, TOL, g);
+            break;
+          }
+        case HC_HROW:
+          {
+            const int nrows = int(r.range(1, 3));
+            for (int i = 0; i < nrows && msg.empty(); ++i)
+              {
+                const int j = int(r.range(0, N - 1));
+                const int xx = j % g.nx, y = (j / g.nx) % g.ny, z = j / (g.nx * g.ny);
+                Vec rref, rmag;
+                ref.hess_row(x, z, y, xx, rref, &rmag);
+                msg = cmp_vec(what, stir_row(P, g, *xim, z, y, xx), rref, rmag, TOL, g);
+                if (!msg.empty())
+                  msg = cat("row of voxel (", g.oz + z, ",", g.oy + y, ",", g.ox + xx, "): ", msg);
+              }
+            break;
+          }
+        case HC_HTIMES:
+          {
+            Vec hvref, hvmag;
+            ref.hess_times(x, v, hvref, &hvmag);
+            const Vec prefill = make_direction(seed + 3, std::size_t(N), 0.5 * vmax(hvref));
+            for (int i = 0; i < N; ++i)
+              hvmag[std::size_t(i)] += 0.05 * (std::fabs(prefill[std::size_t(i)]) + std::fabs(hvref[std::size_t(i)])); // float rounding of output += result
+            msg = cmp_vec(what, stir_hess_times(P, g, *xim, v, prefill), hvref, hvmag, TOL_HV, g);
+            break;
+          }
+        case HC_CURV:
+          {
+            Vec cref;
+            ref.curvature(x, cref);
+            shared_ptr<Vox> out = filled_vox(g, 9.5f);
+            m.ps->parabolic_surrogate_curvature(*out, *xim);
+            msg = cmp_vec(what, from_vox(g, *out), cref, cref, TOL, g);
+            break;
+          }
+        default: // HC_APPROX, Quadratic only: no documented formula (see check_pairwise) -> a fresh twin that evaluated the value first
+          {
+            const Weights w = st.weights();
+            Made twin = make_prior(h_spec(st, st.user ? &w : nullptr, 0), st.target);
+            twin.p->compute_value(*xim);
+            const shared_ptr<Vox> in = to_vox(g, v);
+            shared_ptr<Vox> o1 = filled_vox(g, 0.25f), o2 = filled_vox(g, 0.25f);
+            P.add_multiplication_with_approximate_Hessian(*o1, *in);
+            twin.p->add_multiplication_with_approximate_Hessian(*o2, *in);
+            // magnitude = sum of the absolute values of the terms = the same (non-negative) operator applied to |input|.  The two
+            // objects hold default weights computed by different functions (compute_weights is inlined into each of them and the
+            // library is built with -ffast-math): they agree to float rounding only, so this is a float-accumulation comparison (TOL)
+            Vec va(v);
+            for (auto& e : va)
+              e = std::fabs(e);
+            shared_ptr<Vox> o3 = filled_vox(g, 0.f);
+            twin.p->add_multiplication_with_approximate_Hessian(*o3, *to_vox(g, va));
+            Vec want = from_vox(g, *o2), mag = from_vox(g, *o3);
+            for (auto& e : mag)
+              e = std::fabs(e) + 0.25;
+            msg = cmp_vec(what + " vs fresh twin", from_vox(g, *o1), want, mag, TOL, g);
+          }
+        }
+      if (!msg.empty())
+        return Result::fail(cat(where, first_call ? " (first call of the block)" : "", lazily_creates ? " [this call computes the default weights]" : "", ": ", msg));
+      if (lazily_creates)
+        {
+          st.mat = true;
+          st.mat_g = g;
+          st.mat_2D = st.only_2D;
+        }
+      first_call = false;
+      stats().count("history: calls compared");
+    }
+
+  // the weights the object now holds are the ones of the current settings (documented defaults or the user's)
+  Array<3, float> wstir;
+  if (st.beta != 0 && stir_weights(m, st.kind, wstir))
+    {
+      const Weights& w = ref.w;
+      VF_CHECK(wstir.get_min_index() == -w.hz && wstir.get_max_index() == w.hz && wstir[0].get_min_index() == -w.hy && wstir[0].get_max_index() == w.hy
+                   && wstir[0][0].get_min_index() == -w.hx && wstir[0][0].get_max_index() == w.hx,
+               where, ": ", kn, " get_weights(): index range is z ", wstir.get_min_index(), "..", wstir.get_max_index(), " y ", wstir[0].get_min_index(), "..",
+               wstir[0].get_max_index(), " but the current settings (", (st.user ? "user weights" : (st.only_2D ? "default, only_2D" : "default, 3D")),
+               ") have half widths ", w.hz, ",", w.hy, ",", w.hx);
+      for (int dz = -w.hz; dz <= w.hz; ++dz)
+        for (int dy = -w.hy; dy <= w.hy; ++dy)
+          for (int dx = -w.hx; dx <= w.hx; ++dx)
+            VF_CHECK(std::fabs(double(wstir[dz][dy][dx]) - w.at(dz, dy, dx)) <= TOL_REL * (w.at(dz, dy, dx) + 1e-30), where, ": ", kn, " get_weights()[", dz, "][", dy,
+                     "][", dx, "] = ", wstir[dz][dy][dx], " but the value for the current settings (voxel sizes z,y,x = ", g.vz, ",", g.vy, ",", g.vx, ") is ",
+                     w.at(dz, dy, dx));
+    }
+  return Result::pass();
+}
+
+//! one change of the live object (+ the set_up the preconditions ask for)
+Result
+h_change(HState& st, const Made& m, const Cfg& base, long op, long a, long b, uint64_t seed, const std::string& where)
+{
+  a = std::labs(a);
+  b = std::labs(b);
+  op = ((op % HO_NUM) + HO_NUM) % HO_NUM;
+  if (st.kind == QUAD && op == HO_PARAM)
+    op = HO_SETUP_SAME; // no parameter
+  stats().cls(cat("history step: ", hop_name[op]));
+  SplitMix r(seed ^ 0x5A5A5Au);
+  bool do_setup = true;
+  std::ostringstream body;
+  body << std::setprecision(9);
+  switch (op)
+    {
+    case HO_SETUP_SAME:
+      break;
+    case HO_NEW_GRID:
+      {
+        Grid ng = h_new_grid(st, base.g, int(a), seed);
+        if (would_be_stale(st, ng, st.only_2D))
+          {
+            if (no_exclude())
+              stats().cls("history: set_up with other voxel-size ratios after the default weights were computed");
+            else
+              {
+                count_excluded(SIG_STALE_W);
+                const float f = (seed & 1) ? 0.5f : ((seed & 2) ? 2.f : 1.f);
+                ng.vz = st.mat_g.vz * f, ng.vy = st.mat_g.vy * f, ng.vx = st.mat_g.vx * f;
+              }
+          }
+        if (ng.vz != st.g.vz || ng.vy != st.g.vy || ng.vx != st.g.vx)
+          stats().cls("history: set_up with other voxel sizes");
+        // kappa / anatomical image of the new geometry first
+        const bool had = !st.kap.empty();
+        if (had ? (b % 3 == 0) : (b % 3 != 1))
+          st.kmode = 0;
+        else if (!had)
+          st.kmode = 1 + int(r.range(0, 1));
+        st.kap = h_kappa(st.kmode, seed + 5, 1.5, ng);
+        if (had || !st.kap.empty())
+          live_set_kappa(m, st.kind, st.kap.empty() ? shared_ptr<Vox>() : to_vox(ng, st.kap));
+        if (st.kind == PLS)
+          {
+            st.anat = h_anat(st, seed + 7, ng);
+            dynamic_cast<PLSPrior<float>&>(*m.p).set_anatomical_image_sptr(to_vox(ng, st.anat));
+          }
+        st.g = ng;
+        break;
+      }
+    case HO_WEIGHTS:
+      if (st.kind == PLS)
+        {
+          st.anat = h_anat(st, seed + 7, st.g);
+          dynamic_cast<PLSPrior<float>&>(*m.p).set_anatomical_image_sptr(to_vox(st.g, st.anat));
+        }
+      else
+        {
+          switch (a % 4)
+            {
+            case 0:
+              st.user_w = h_user_weights(1, 1, 1, seed);
+              break;
+            case 1:
+              st.user_w = h_user_weights(2, 2, 2, seed);
+              break;
+            case 2:
+              st.user_w = h_user_weights(int(r.range(0, 2)), int(r.range(0, 2)), int(r.range(0, 2)), seed);
+              break;
+            default: // (back to) the weights of the base configuration
+              st.user_w = make_user_weights(base);
+            }
+          st.user = true;
+          live_set_weights(m, st.kind, st.user_w);
+          stats().cls(cat("history: set_weights ", 2 * st.user_w.hz + 1, "x", 2 * st.user_w.hy + 1, "x", 2 * st.user_w.hx + 1));
+        }
+      break;
+    case HO_KAPPA:
+      st.kmode = int(a % 4);
+      st.kap = h_kappa(st.kmode, seed + 5, 0.2 + 0.4 * double(b % 7), st.g);
+      live_set_kappa(m, st.kind, st.kap.empty() ? shared_ptr<Vox>() : to_vox(st.g, st.kap));
+      stats().cls(st.kap.empty() ? "history: set_kappa_sptr(null)" : "history: set_kappa_sptr(image)");
+      break;
+    case HO_BETA:
+      st.beta = beta_list()[std::size_t(a % 7)];
+      m.p->set_penalisation_factor(st.beta);
+      do_setup = (b & 1) != 0; // GeneralisedPrior.inl: "Currently we allow the penalisation factor to be set after calling set_up()"
+      break;
+    case HO_PARSE:
+      {
+        bool toggle = (a & 1) != 0;
+        const bool with_weights = st.kind != PLS && (a & 8) != 0;
+        if (toggle && !with_weights && would_be_stale(st, st.g, !st.only_2D))
+          {
+            if (no_exclude())
+              stats().cls("history: only_2D changed by parsing after the default weights were computed");
+            else
+              {
+                count_excluded(SIG_STALE_W);
+                toggle = false;
+              }
+          }
+        if (st.kind == PLS && (a & 8) == 0)
+          { // the public setter
+            if (toggle)
+              st.only_2D = !st.only_2D;
+            dynamic_cast<PLSPrior<float>&>(*m.p).set_only_2D(st.only_2D);
+            stats().cls("history: PLS set_only_2D");
+            break;
+          }
+        if (toggle)
+          st.only_2D = !st.only_2D;
+        if (toggle || (a & 16))
+          body << "only 2D:=" << (st.only_2D ? 1 : 0) << "\n";
+        if (a & 2)
+          {
+            st.beta = beta_list()[std::size_t(b % 7)];
+            body << "penalisation factor:=" << st.beta << "\n";
+          }
+        if (a & 4)
+          {
+            if (st.kind == RDP)
+              {
+                st.gamma = std::vector<float>{ 2.f, 0.f, 0.5f, 10.f, 1.f }[std::size_t(r.range(0, 4))];
+                body << "gamma value:=" << st.gamma << "\n";
+              }
+            else if (st.kind == LOGCOSH)
+              {
+                st.scalar = float(std::vector<double>{ 1., 0.1, 10., 3. }[std::size_t(r.range(0, 3))] / st.iscale);
+                body << "scalar:=" << st.scalar << "\n";
+              }
+            else if (st.kind == PLS)
+              {
+                st.eta = st.ascale * std::vector<double>{ 1., 0.3, 3., 0.1 }[std::size_t(r.range(0, 3))];
+                body << "eta:=" << std::setprecision(17) << st.eta << std::setprecision(9) << "\n";
+              }
+          }
+        if (with_weights)
+          {
+            st.user_w = h_user_weights(int(r.range(0, 2)), int(r.range(0, 2)), int(r.range(0, 2)), seed);
+            st.user = true;
+            body << "weights:=" << weights_text(st.user_w) << "\n";
+          }
+        VF_CHECK(live_parse(m, st.kind, body.str()), where, ": parse() of valid parameters on the live object returned false:\n", body.str());
+        stats().cls(cat("history: parse on the live object", toggle ? ", only_2D changed" : "", with_weights ? ", weights" : ""));
+        break;
+      }
+    default: // HO_PARAM
+      if (st.kind == RDP)
+        {
+          auto& p = dynamic_cast<RelativeDifferencePrior<float>&>(*m.p);
+          if (a % 3 != 1)
+            p.set_gamma(st.gamma = std::vector<float>{ 2.f, 0.f, 0.5f, 10.f, 1.f }[std::size_t(r.range(0, 4))]);
+          if (a % 3 != 0) // epsilon > 0 (property text)
+            p.set_epsilon(st.eps = float(st.iscale * std::vector<double>{ 1e-3, 1e-2, 0.1, 1., 10. }[std::size_t(r.range(0, 4))]));
+        }
+      else if (st.kind == LOGCOSH)
+        dynamic_cast<LogcoshPrior<float>&>(*m.p).set_scalar(st.scalar = float(std::vector<double>{ 1., 0.1, 10., 100., 0.01, 3. }[std::size_t(r.range(0, 5))] / st.iscale));
+      else
+        { // PLS: alpha >= 0.1 x image scale, eta >= 0.1 x anatomical scale (assumptions of the property configuration)
+          auto& p = dynamic_cast<PLSPrior<float>&>(*m.p);
+          if (a % 3 != 1)
+            p.set_eta(st.eta = st.ascale * std::vector<double>{ 1., 0.3, 3., 0.1 }[std::size_t(r.range(0, 3))]);
+          if (a % 3 != 0)
+            p.set_alpha(st.alpha = st.iscale * std::vector<double>{ 1., 0.3, 3., 0.1 }[std::size_t(r.range(0, 3))]);
+        }
+    }
+  if (do_setup)
+    {
+      st.target = filled_vox(st.g, 1.f);
+      VF_CHECK(m.p->set_up(st.target) == Succeeded::yes, where, ": set_up returned Succeeded::no");
+    }
+  else
+    stats().cls("history: change without a following set_up (penalisation factor)");
+  return Result::pass();
+}
+
+Result
+check_history(const Cfg& k, const json& c)
+{
+  HState st;
+  st.kind = k.kind;
+  st.g = k.g;
+  st.beta = k.beta;
+  st.only_2D = k.only_2D();
+  st.user = k.kind != PLS && k.wmode == 2;
+  if (st.user)
+    st.user_w = make_user_weights(k);
+  st.kmode = k.kmode;
+  st.kap = make_kappa(k, k.g);
+  st.gamma = k.gamma;
+  st.eps = k.eps;
+  st.scalar = k.scalar;
+  st.eta = k.eta;
+  st.alpha = k.alpha;
+  st.iscale = k.iscale;
+  st.ascale = k.ascale;
+  st.amode = k.amode;
+  if (k.kind == PLS)
+    st.anat = h_anat(st, k.aseed, k.g);
+  st.target = filled_vox(st.g, 1.f);
+  Made m;
+  try
+    {
+      m = make_prior(h_spec(st, st.user ? &st.user_w : nullptr, k.construct), st.target);
+    }
+  catch (const std::exception& e)
+    {
+      return Result::reject(std::string("prior construction/set_up rejected: ") + e.what());
+    }
+  const json& hist = c.at("hist");
+  stats().cls("history case");
+  stats().count("history: steps", long(hist.size()));
+  auto use_of = [](const json& a, std::size_t at, long& first, long& n, uint64_t& seed) {
+    first = a.size() > at ? a[at].get<long>() : 0;
+    n = a.size() > at + 1 ? a[at + 1].get<long>() : 0;
+    seed = a.size() > at + 2 ? a[at + 2].get<uint64_t>() : 0;
+  };
+  long first = 0, n = 0;
+  uint64_t seed = 0;
+  use_of(c.value("use0", json::array()), 0, first, n, seed);
+  {
+    const Result r = h_use(st, m, first, n, seed, "after construction and set_up");
+    if (r.failed())
+      return r;
+  }
+  std::size_t i = 0;
+  for (const json& s : hist)
+    {
+      ++i;
+      const long op = s.size() > 0 ? s[0].get<long>() : 0, a = s.size() > 1 ? s[1].get<long>() : 0, b = s.size() > 2 ? s[2].get<long>() : 0;
+      use_of(s, 3, first, n, seed);
+      const std::string where = cat("history step ", i, " of ", hist.size(), " (", hop_name[((op % HO_NUM) + HO_NUM) % HO_NUM], ")");
+      Result r = h_change(st, m, k, op, a, b, seed, where);
+      if (r.failed())
+        return r;
+      r = h_use(st, m, first, n, seed, "after " + where);
+      if (r.failed())
+        return r;
+    }
+  return Result::pass();
+}
+
 Result
 check(const json& c)
 {
@@ -1293,12 +2011,15 @@ check(const json& c)
   if (k.wmode == 2 && k.wcentre != 0)
     stats().cls("non-zero centre weight");
   stats().count("voxels", k.g.N());
+  if (c.contains("hist"))
+    return check_history(k, c);
+  stats().cls("classic case (one use of a fresh object)");
   return k.kind == PLS ? check_pls(k) : check_pairwise(k);
 }
 
 // =======================================================================================================================
 json
-gen(Src& s, int size)
+gen_classic(Src& s, int size)
 {
   json c;
   const int kind = s.pick(std::vector<int>{ QUAD, RDP, LOGCOSH, QUAD, RDP, LOGCOSH, PLS });
@@ -1390,6 +2111,47 @@ gen(Src& s, int size)
   return c;
 }
 
+//! the history part of a case: "use0" + "hist" (see OBJECT HISTORIES above)
+void
+gen_history(Src& s, json& c)
+{
+  auto use = [&](json& a) {
+    a.push_back(int(s.range(0, 5)));              // first call of the use block
+    a.push_back(s.coin() ? 0 : int(s.range(1, 5))); // number of calls (0 = all applicable ones)
+    a.push_back(s.seed64());
+  };
+  json u = json::array();
+  use(u);
+  c["use0"] = u;
+  json hist = json::array();
+  const int len = int(s.range(1, 6));
+  for (int i = 0; i < len; ++i)
+    {
+      json st = json::array();
+      st.push_back(int(s.pick(std::vector<int>{ HO_SETUP_SAME, HO_NEW_GRID, HO_NEW_GRID, HO_NEW_GRID, HO_WEIGHTS, HO_KAPPA, HO_KAPPA, HO_BETA, HO_PARSE, HO_PARSE, HO_PARAM })));
+      st.push_back(int(s.range(0, 31)));
+      st.push_back(int(s.range(0, 20)));
+      use(st);
+      hist.push_back(st);
+    }
+  c["hist"] = hist;
+}
+
+json
+gen(Src& s, int size)
+{
+  json c = gen_classic(s, size);
+  // 3 of 5 cases stay as they were (one use of a fresh object, all clauses); the others are object histories
+  if (s.chance(2, 5))
+    {
+      // the order of first use matters for the lazily computed default weights: two thirds of the histories start with them
+      if (c["prior"].get<int>() != PLS && c["wmode"].get<int>() == 2 && s.chance(1, 3))
+        c["wmode"] = s.coin() ? 1 : 0;
+      gen_history(s, c);
+    }
+  return c;
+}
+
 bool
 nontrivial(const json& c)
 {
@@ -1407,7 +2169,7 @@ fixed_cases(int)
   for (int kind = 0; kind < 4; ++kind)
     for (int shape = 0; shape < 6; ++shape)
       {
-        json c = gen(s, 100);
+        json c = gen_classic(s, 100);
         c["prior"] = kind;
         static const int dims[6][3] = { { 1, 1, 1 }, { 1, 1, 5 }, { 1, 5, 1 }, { 5, 1, 1 }, { 8, 9, 10 }, { 2, 2, 2 } };
         c["nz"] = dims[shape][0];
@@ -1431,6 +2193,27 @@ fixed_cases(int)
           }
         v.push_back(c);
       }
+  // order of first use: every prior x every call as the FIRST call after construction + set_up with default weights (3D and only_2D,
+  // explicit constructor and parsing), followed by the remaining calls, a set_up for another geometry and a set_up again
+  for (int kind = 0; kind < 4; ++kind)
+    for (int first = 0; first < 6; ++first)
+      {
+        static const int ncalls[4] = { 6, 4, 5, 2 };
+        if (first >= ncalls[kind])
+          continue;
+        json c = gen_classic(s, 100);
+        c["prior"] = kind;
+        c["nz"] = 3;
+        c["ny"] = 4;
+        c["nx"] = 3;
+        c["wmode"] = (first + kind) % 2;
+        c["construct"] = (first / 2 + kind) % 2;
+        c["beta"] = first % 3 == 0 ? 1. : 2.5;
+        c["use0"] = json::array({ first, 0, 1000 + 10 * kind + first });
+        c["hist"] = json::array({ json::array({ int(HO_NEW_GRID), 1 + first % 3, first, first + 1, 0, 2000 + 10 * kind + first }),
+                                  json::array({ int(HO_SETUP_SAME), 0, 0, first + 2, 0, 3000 + 10 * kind + first }) });
+        v.push_back(c);
+      }
   return v;
 }
 
@@ -1445,6 +2228,7 @@ the_property()
   p.check = check;
   p.nontrivial = nontrivial;
   p.fixed_cases = fixed_cases;
+  p.shrink_lists = { "hist" };
   p.rule = "image with >= 2 voxels in >= 2 dimensions and (kappa image or user weights or anisotropic voxel sizes)";
   return p;
 }
